@@ -124,6 +124,8 @@ def run_job(prop, hname, params, tier, seed):
             v['float_replay'] = 'mismatch: %s' % e
         except BaseException as e:  # noqa
             v['float_replay'] = 'error: %s: %s' % (type(e).__name__, str(e)[:300])
+            if os.environ.get('SYMX_DEBUG_REPLAY'):
+                traceback.print_exc()
         if h.replay_real is not None and v['float_replay'] == 'reproduced':
             try:
                 rr = h.replay_real(cex['model'], lab, **params)
